@@ -122,14 +122,28 @@ class _Census:
             cur = p
         return False
 
+    @staticmethod
+    def int_index(node: ast.AST) -> bool:
+        if isinstance(node, ast.Call):
+            return not node.args or all(isinstance(a, ast.Constant) and isinstance(a.value, int) for a in node.args)
+        if isinstance(node, ast.Subscript):
+            sl = node.slice
+            if isinstance(sl, ast.UnaryOp) and isinstance(sl.op, ast.USub):
+                sl = sl.operand
+            return isinstance(sl, ast.Constant) and isinstance(sl.value, int)
+        return False
+
     def guard(self, node: ast.AST, kind: str, base: str | None) -> str:
         cur: ast.AST = node
         plain_ok = base is not None and base in self.seq_names
         while id(cur) in self.par:
             p, field = self.par[id(cur)]
             if isinstance(p, ast.Try) and field == 'body':
+                catch = CATCH[kind]
+                if kind in ('index', 'pop') and self.int_index(node):
+                    catch = catch - {'KeyError'}          # a literal integer index / list.pop(): IndexError, never KeyError
                 for h in p.handlers:
-                    if _handler_names(h) & CATCH[kind]:
+                    if _handler_names(h) & catch:
                         return 'try'
             if base is not None and kind in ('index', 'pop'):
                 if isinstance(p, ast.BoolOp) and isinstance(p.op, ast.And):
